@@ -685,12 +685,17 @@ func genBer(o genOpts, w *bufio.Writer) {
 		}
 		fmt.Fprintf(w, "ber U %s %s %s\n", tyStr(t, 0), paramStr(""), hx(b))
 	}
+	// 5.-7. un-encodable values, histories of marshal calls, concurrent decoding (ber_hostile.go)
+	genBerHostile(o, w)
 }
 
 // typeOf rebuilds a reflect.Type from the notation (used so that run mode needs no state from gen mode)
 type tyParser struct {
 	s string
 	i int
+	// appended to the generated member names: a different salt gives struct types that are new to reflect (and to
+	// anything keyed by reflect.Type) and the same to the codec, which looks at first-field names, tags and kinds only
+	salt string
 }
 
 func (p *tyParser) peek() byte {
@@ -785,7 +790,7 @@ func (p *tyParser) ty() reflect.Type {
 		for p.peek() != ']' {
 			tag := p.params()
 			ft := p.ty()
-			fs = append(fs, reflect.StructField{Name: fmt.Sprintf("F%d", k), Type: ft, Tag: reflect.StructTag(`ber:"` + tag + `"`)})
+			fs = append(fs, reflect.StructField{Name: fmt.Sprintf("F%d%s", k, p.salt), Type: ft, Tag: reflect.StructTag(`ber:"` + tag + `"`)})
 			k++
 			if p.peek() == ';' {
 				p.i++
@@ -910,6 +915,12 @@ func paramOf(s string) string {
 func runBer(line string, t []string) string {
 	if len(t) < 3 {
 		return "bad-op"
+	}
+	switch t[0] {
+	case "H":
+		return withDeadline(func() string { return runBerHistory(t) }, 30*time.Second)
+	case "V":
+		return withDeadline(func() string { return runBerConcurrent(t) }, 30*time.Second)
 	}
 	tp := &tyParser{s: t[1]}
 	typ := tp.ty()
